@@ -132,3 +132,22 @@ def option_sources(fn, res):
         else:
             out.append((b, "?", pe))
     return out
+
+
+def ascii_required(fn, conds, is_s, block):
+    """is `block` unreachable once a non-ASCII character of the text has been seen?  Either the whole-string test
+    (`s.is_ascii()` / `chars.iter().all(char::is_ascii)` as a call) guards it, or - in loop form, which is also what
+    `all(..)` normalises to - no path leads from a failed per-character `is_ascii` test to the block."""
+    if guarded(conds, block, is_s, lambda nf: nf == ("ascii", True)):
+        return True
+    def bad(fc):
+        if fc[0] != "call" or not fc[1].endswith("char>::is_ascii") or fc[3] is not False or not fc[2]:
+            return False
+        src = A.iter_elem_source(fc[2][0])
+        if src is None:
+            return False
+        return any((x[0] == "call" and x[1].endswith("<impl str>::chars") and is_s(x[2][0])) for x in A.walk(src)) or is_s(src)
+    edges_ = conds.edges_where(bad)
+    if not edges_:
+        return False
+    return all(block not in A.reachable_tagged(fn, s_) for a, s_ in edges_)
